@@ -754,6 +754,7 @@ MUTANTS = [
     {"name": "fex-pipeline-sliced", "file": TEMPLATES["cvode"], "old": "    {% for eq in ode.fex -%}\n        {{ eq | stmwrap(80, 8) }}\n    {% endfor %}\n", "new": "    {{ ode.fex[1:] | map(\"stmwrap\", 80, 8) | map(\"suffix\", \"\\n    \") | join }}\n", "rules": ["R8"]},
     {"name": "fex-pipeline-rewrites-text", "file": TEMPLATES["cvode"], "old": "    {% for eq in ode.fex -%}\n        {{ eq | stmwrap(80, 8) }}\n    {% endfor %}\n", "new": "    {{ ode.fex | map(\"replace\", \" - \", \" + \") | map(\"stmwrap\", 80, 8) | map(\"suffix\", \"\\n    \") | join }}\n", "rules": ["R8"]},
     {"name": "fex-pipeline-suffix-text", "file": TEMPLATES["cvode"], "old": "    {% for eq in ode.fex -%}\n        {{ eq | stmwrap(80, 8) }}\n    {% endfor %}\n", "new": "    {{ ode.fex | map(\"stmwrap\", 80, 8) | map(\"suffix\", \" + 0.0\\n    \") | join }}\n", "rules": ["R8"]},
+    {"name": "signed-chain-of-rows-signs-swapped", "file": T, "old": '            for specidx in rspecidx:\n                rhs[specidx] += f" - {rate_sym}[{rl}]*{rsym_mul}"\n            for specidx in pspecidx:\n                rhs[specidx] += f" + {rate_sym}[{rl}]*{rsym_mul}"\n', "new": '            import itertools\n            for sign, specidx in itertools.chain(zip(itertools.repeat(" + "), rspecidx), zip(itertools.repeat(" - "), pspecidx)):\n                rhs[specidx] += sign + f"{rate_sym}[{rl}]*{rsym_mul}"\n', "rules": ["R2", "R3"]},
     {"name": "kernel-replace-swapped", "file": TEMPLATES["cvode"], "old": 'replace("y[IDX", "y_cur[IDX") | stmwrap(80, 12)', "new": 'replace("y_cur[IDX", "y[IDX") | stmwrap(80, 12)', "rules": ["R8"]},
     {"name": "stmwrap-breaks-words", "file": "naunet/utilities.py", "old": "break_long_words=False", "new": "break_long_words=True", "rules": ["R8"]},
     {"name": "textwrapper-breaks-words", "file": "naunet/utilities.py", "old": "wrappedlist = wrap(text, width - indent, break_long_words=False)", "new": "import textwrap\n    wrappedlist = textwrap.TextWrapper(width=width - indent).wrap(text)", "rules": ["R8"]},
@@ -799,5 +800,6 @@ BENIGN = [
     {"name": "numdens-braced-loop", "file": 'naunet/templates/base/cpp/src/naunet_physics.cpp.j2', "old": '    double numdens = 0.0;\n\n    for (int i = 0; i < NSPECIES; i++) numdens += y[i];\n    return numdens;\n', "new": '    double total = 0.;\n    for (int k = 0; k < NSPECIES; ++k) {\n        total = total + y[k];\n    }\n    return total;\n'},
     {"name": "reaction-loop-by-index", "file": T, "old": 'for rl, react in enumerate(tqdm(reactions, desc="Preparing ODE...")):', "new": 'for rl in range(len(reactions)):\n            react = reactions[rl]'},
     {"name": "fex-map-join-pipeline", "file": TEMPLATES["cvode"], "old": "    {% for eq in ode.fex -%}\n        {{ eq | stmwrap(80, 8) }}\n    {% endfor %}\n", "new": "    {{ ode.fex | map(\"stmwrap\", 80, 8) | map(\"suffix\", \"\\n    \") | join }}\n"},
+    {"name": "signed-chain-of-rows", "file": T, "old": '            for specidx in rspecidx:\n                rhs[specidx] += f" - {rate_sym}[{rl}]*{rsym_mul}"\n            for specidx in pspecidx:\n                rhs[specidx] += f" + {rate_sym}[{rl}]*{rsym_mul}"\n', "new": '            import itertools\n            for sign, specidx in itertools.chain(zip(itertools.repeat(" - "), rspecidx), zip(itertools.repeat(" + "), pspecidx)):\n                rhs[specidx] += sign + f"{rate_sym}[{rl}]*{rsym_mul}"\n'},
     {"name": "template-reindent", "file": TEMPLATES["cvode"], "old": "    {% for eq in ode.fex -%}\n        {{ eq | stmwrap(80, 8) }}", "new": "    {% for eq in ode.fex -%}\n      {{ eq|stmwrap(80, 6) }}"},
 ]
